@@ -57,6 +57,7 @@ def t_expect(ctx):
     RQcls = LegacyRQ if variant == 'override' else RQ
     d_z = ctx.real('d_z', 0, Exact('3/10')) if variant == 'blocked' else None
     t_clear = ctx.real('t_clear', 0, Exact('2/5')) if variant == 'clear_during' else None
+    TAU = Exact(ctx.cfg['tau']) if 'tau' in ctx.cfg else globals()['TAU']      # 0 / negative: the poll idiom, an already expired deadline
     ctx.new_loop(horizon=5)
     loop = ctx.loop
     bus = ctx.bus('A')
@@ -201,7 +202,7 @@ def t_expect(ctx):
         r = res[tag]
         ctx.check('C18.unsubscribed', r['registry_after'] == res['reg0'] or variant == 'two', tag=tag, why='temporary handler still registered when expect() ended')
         got = r['got']
-        deadline = r['call_t'] + TAU
+        deadline = r['call_t'] + (TAU if TAU > 0 else 0)
         # reference over the recorded processing order
         cands = [(e, seq, t) for (e, seq, t) in seen if isinstance(e, RQ)]
         from ..base import zite
@@ -254,11 +255,15 @@ def jobs(tier):
         for rng in (['0', '1/20'], ['1/20', '1/10'], ['1/10', '1/5'], ['1/5', '3/10'], ['3/10', '2/5']):
             out.append(Job('C18', 's1.expect', t_expect, dict(variant='slow_timeout', sym_te=False, t_e='0', pmax=1, ds_range=rng)))
         out.append(Job('C18', 's1.expect', t_expect, dict(variant='override', sym_te=False, t_e='0', pmax=1)))
+        for tau in ('0', '-1/10'):
+            out.append(Job('C18', 's1.expect', t_expect, dict(variant='basic', sym_te=True, pmax=0, tau=tau, pin_g1='1/10'), witnesses=('timeout',)))
         out.append(Job('C18', 's1.expect', t_expect, dict(variant='clear_during', sym_te=False, t_e='0', pmax=0), witnesses=('cleared while pending',)))
         out.append(Job('C18', 's1.expect', t_expect, dict(variant='blocked', sym_te=True, pmax=0, pin_t0='1/50', pin_g1='1/10'), witnesses=W))
         for rng in (['0', '3/20'], ['3/20', '3/10'], ['3/10', '9/20'], ['9/20', '3/5']):
             out.append(Job('C18', 's1.expect', t_expect, dict(variant='cancel', sym_te=False, t_e='0', pmax=1, tc_range=rng)))
     else:
+        for tau in ('0', '-1/10'):
+            out.append(Job('C18', 's1.expect', t_expect, dict(variant='basic', sym_te=True, pmax=1, tau=tau), witnesses=('timeout',)))
         for v in ('basic', 'predicate_raises', 'two', 'cancel', 'slow_timeout', 'override', 'clear_during', 'blocked'):
             out.append(Job('C18', 's1.expect', t_expect, dict(variant=v, sym_te=True), max_paths=20000))
             for te in ('0', '1/10', '1/4', '2/5'):
